@@ -20,7 +20,7 @@ CONSTANTS Devs,      \* set of enabled deviation names (see DevNames)
 
 DevNames == {"PendingReuse", "PaintBody", "MacroequalSpace", "StaleNewline",
              "StrTrailingNL", "StrSkipsNested", "ZeroParamNL", "ArgNewlineTok",
-             "TrailingComma", "StaleDepth", "ArgUseAfterFree", "KeywordFreesLit", "UndefFreesHeldBody", "TextPaste"}
+             "TrailingComma", "StaleDepth", "ArgUseAfterFree", "KeywordFreesLit", "UndefFreesHeldBody", "TextPaste", "NullDirLeak"}
 (* the last three are uses of freed memory: the model continues as if the memory *)
 (* were intact and records that the real outcome is unpredictable (WildDevs)   *)
 WildDevs == {"ArgUseAfterFree", "KeywordFreesLit", "UndefFreesHeldBody"}
@@ -35,7 +35,10 @@ KnownDevs == {"StrSkipsNested", "StaleDepth"}
    switched off, as the record of what the defect was (config sec8_hist exhibits each against Expand):
    PendingReuse PaintBody ArgUseAfterFree UndefFreesHeldBody (next() copies the token), KeywordFreesLit,
    MacroequalSpace, StaleNewline, TrailingComma, StrTrailingNL ZeroParamNL ArgNewlineTok (new-lines in invocations),
-   TextPaste (main.c -E loop separates tokens that would paste; config qp_textpaste is its record) *)
+   TextPaste (main.c -E loop separates tokens that would paste; config qp_textpaste is its record).
+   NullDirLeak was never in the tree: it is the class "a directive's exit path skips the restore of ppflags" (here the early
+   return of the null directive taken after PPNEWLINE was set); config qn_leak is the record that such a leak is a
+   model-level difference (Inv_Newline fails) *)
 NoDevs == {}
 Dev(n) == n \in Devs
 
@@ -48,10 +51,19 @@ Front(s) == SubSeq(s, 1, Len(s) - 1)
 (*   [k |-> "def", n, fn, ps, b]   #define n[(ps)] b                            *)
 (*   [k |-> "undef", n]            #undef n                                     *)
 (*   [k |-> "text", b]             a text line                                  *)
+(*   [k |-> "nop", n, ps, b]       a directive that leaves the macro table alone: *)
+(*                                 '#' followed by the tokens b; b = <<>> is the    *)
+(*                                 null directive (6.10.7), else #pragma / #line /  *)
+(*                                 a line marker.  ps = <<pre, post>>: the text in  *)
+(*                                 front of '#' (white space) and behind the last   *)
+(*                                 token (white space, a comment); n = "ext" when   *)
+(*                                 the form is an extension (not auditable)         *)
 (* Source tokens: [k, s, sp]; k in id num str chr p; sp = preceded by space.   *)
 Tk(k, s, sp) == [k |-> k, s |-> s, sp |-> sp]
 Line(k, n, fn, ps, b) == [k |-> k, n |-> n, fn |-> fn, ps |-> ps, b |-> b]
 NoLine == Line("none", "", FALSE, <<>>, <<>>)
+Nop(pre, toks, post) == Line("nop", "", FALSE, <<pre, post>>, toks)
+NopExt(pre, toks, post) == Line("nop", "ext", FALSE, <<pre, post>>, toks)
 IsP(t, s) == t.k = "p" /\ t.s = s
 
 MacroNamesOf(P) == {P[i].n : i \in {j \in 1..Len(P) : P[j].k \in {"def", "undef"}}}
@@ -162,7 +174,8 @@ Ex(P, ts, M, acc, pend, pol, fuel) ==
            rest == Tail(ts) IN
     IF h0.k = "dir" THEN
       LET ln == P[h0.li] IN
-      IF ln.k = "undef" THEN Ex(P, rest, [M EXCEPT ![ln.n] = NoLine], acc, FALSE, pol, fuel - 1)
+      IF ln.k = "nop" THEN Ex(P, rest, M, acc, FALSE, pol, fuel - 1)     \* the line is deleted (phase 4), nothing else happens
+      ELSE IF ln.k = "undef" THEN Ex(P, rest, [M EXCEPT ![ln.n] = NoLine], acc, FALSE, pol, fuel - 1)
       ELSE IF M[ln.n].k = "def" /\ ~Redefinable(M[ln.n], ln) THEN Res("error", acc, FALSE, M)
       ELSE Ex(P, rest, [M EXCEPT ![ln.n] = ln], acc, FALSE, pol, fuel - 1)
     ELSE LET h == Mark(h0, pend) IN
@@ -230,7 +243,8 @@ ParamToks(ps, i) ==
        \o <<IF ps[i] = "__VA_ARGS__" THEN PTok4("p", "...", FALSE) ELSE PTok4("id", ps[i], FALSE)>>
        \o ParamToks(ps, i + 1)
 DirToks(ln) ==
-  IF ln.k = "undef" THEN <<PTok4("p", "#", FALSE), PTok4("id", "undef", FALSE), PTok4("id", ln.n, TRUE), NlTok>>
+  IF ln.k = "nop" THEN <<PTok4("p", "#", FALSE)>> \o [j \in 1..Len(ln.b) |-> PT(ln.b[j])] \o <<NlTok>>
+  ELSE IF ln.k = "undef" THEN <<PTok4("p", "#", FALSE), PTok4("id", "undef", FALSE), PTok4("id", ln.n, TRUE), NlTok>>
   ELSE <<PTok4("p", "#", FALSE), PTok4("id", "define", FALSE), PTok4("id", ln.n, TRUE)>>
        \o (IF ln.fn THEN <<PTok4("p", "(", FALSE)>> \o ParamToks(ln.ps, 1) \o <<PTok4("p", ")", FALSE)>> ELSE <<>>)
        \o [j \in 1..Len(ln.b) |-> PT(ln.b[j])] \o <<NlTok>>
@@ -269,7 +283,8 @@ Fire(m, d) == [m EXCEPT !.fired = @ \cup {d}]
 
 Mem0(names) == [mac |-> [n \in names |-> NoMac], ctx |-> <<>>, md |-> 0, pos |-> 1, nl |-> TRUE, tok |-> EofTok,
                 pend |-> <<>>, pushes |-> [n \in names |-> 0], pops |-> [n \in names |-> 0],
-                fired |-> {}, err |-> "", maxctx |-> 0, ndir |-> 0, pk |-> EofTok, pkn |-> PeekBudget]
+                fired |-> {}, err |-> "", maxctx |-> 0, ndir |-> 0, pk |-> EofTok, pkn |-> PeekBudget,
+                ppnl |-> FALSE]     \* ppflags & PPNEWLINE: next() hands new-line tokens to its caller (set by main() under -E)
 
 Stor(m, f) == CASE f.r = "body" -> m.mac[f.m].body
                 [] f.r = "arg"  -> m.mac[f.m].args[f.a].toks
@@ -331,10 +346,14 @@ CtxNext(m0) ==
     ELSE TopNext(m)
 
 (* define() / undef() on an (already parsed) directive line; leaves tok = NEWLINE *)
-ApplyDir(m, li) ==
+(* directive(): the null directive returns at once; every other directive runs with PPNEWLINE set       *)
+(* (oldflags = ppflags; ppflags |= PPNEWLINE) and restores the caller's flags on its way out, so the      *)
+(* scanner state a directive needs never outlives the directive line                                      *)
+DirBody(m, li) ==
   LET ln == prog[li]
       m0 == [m EXCEPT !.pos = @ + Len(DirToks(ln)), !.tok = NlTok, !.ndir = @ + 1] IN
-  IF ln.k = "undef" THEN [m0 EXCEPT !.mac[ln.n] = NoMac]
+  IF ln.k = "nop" THEN m0
+  ELSE IF ln.k = "undef" THEN [m0 EXCEPT !.mac[ln.n] = NoMac]
   ELSE LET new == MkMac(ln)
            old == m.mac[ln.n]
            m1 == IF old.def /\ \E j \in 1..Len(old.body) : old.body[j].s = FreedS
@@ -345,6 +364,10 @@ ApplyDir(m, li) ==
       IF Dev("MacroequalSpace") THEN Fire([m1 EXCEPT !.mac[ln.n] = new], "MacroequalSpace")
       ELSE [m1 EXCEPT !.err = "redefinition"]
     ELSE [m1 EXCEPT !.mac[ln.n] = new]
+ApplyDir(m, li) ==
+  IF prog[li].k = "nop" /\ prog[li].b = <<>> THEN
+    IF Dev("NullDirLeak") THEN Fire([DirBody(m, li) EXCEPT !.ppnl = TRUE], "NullDirLeak") ELSE DirBody(m, li)
+  ELSE [DirBody([m EXCEPT !.ppnl = TRUE], li) EXCEPT !.ppnl = m.ppnl]
 
 (* nextinto(t): tgt = "tok" when t == &tok.  static bool newline is m.nl;    *)
 (* pp.c computes it from the global tok even when t points elsewhere.        *)
@@ -463,7 +486,7 @@ NextAfter ==
          m1 == KeywordFree(m0, Top.t, v) IN
      IF ret THEN
         /\ stack' = SetTop([Top EXCEPT !.pc = "fetch"]) /\ mem' = mem /\ UNCHANGED <<ret, out, status>> /\ Static
-     ELSE IF v.k = "nl" /\ mode = "C" THEN
+     ELSE IF v.k = "nl" /\ ~mem.ppnl THEN
         /\ stack' = SetTop([Top EXCEPT !.pc = "fetch"]) /\ mem' = m0 /\ UNCHANGED <<ret, out, status>> /\ Static
      ELSE /\ mem' = [m1 EXCEPT !.tok = v]
           /\ out' = IF v.k = "eof" THEN out ELSE Append(out, v)
@@ -733,6 +756,38 @@ DefsOf(n, oalpha, falpha, pss, bmax) ==
   {Def(n, FALSE, <<>>, b) : b \in SeqsUpTo(oalpha, bmax)}
   \cup UNION {{Def(n, TRUE, ps, b) : b \in SeqsUpTo(falpha, bmax)} : ps \in pss}
 
+(* directives that leave the macro table alone, in every spelling the scanner distinguishes *)
+NopNull == {Nop("", <<>>, ""), Nop("", <<>>, " "), Nop("  ", <<>>, ""), Nop("", <<>>, " /* c */"), Nop("", <<>>, " // c"), Nop("/* c */ ", <<>>, "")}
+NopOther == {Nop("", <<Tk("id", "pragma", FALSE), Tk("id", "q", TRUE)>>, ""), Nop("", <<Tk("id", "pragma", FALSE)>>, ""),
+             Nop(" ", <<Tk("id", "pragma", TRUE), Tk("id", "q", TRUE), Tk("p", "(", FALSE), Tk("num", "1", FALSE), Tk("p", ")", FALSE)>>, " /* c */"),
+             Nop("", <<Tk("id", "line", FALSE), Tk("num", "7", TRUE)>>, ""),
+             Nop("", <<Tk("id", "line", TRUE), Tk("num", "7", TRUE), Tk("str", "\"f.c\"", TRUE)>>, " // c"),
+             NopExt("", <<Tk("num", "9", TRUE), Tk("str", "\"g.c\"", TRUE)>>, ""),
+             NopExt("", <<Tk("num", "9", TRUE), Tk("str", "\"g.c\"", TRUE), Tk("num", "1", TRUE)>>, "")}
+NopAll == NopNull \cup NopOther
+NopQuick == {Nop("", <<>>, ""), Nop("", <<Tk("id", "pragma", FALSE), Tk("id", "q", TRUE)>>, ""),
+             Nop("", <<Tk("id", "line", TRUE), Tk("num", "7", TRUE), Tk("str", "\"f.c\"", TRUE)>>, " // c")}
+NopMid == NopQuick \cup {Nop("  ", <<>>, ""), Nop("", <<>>, " /* c */"), NopExt("", <<Tk("num", "9", TRUE), Tk("str", "\"g.c\"", TRUE)>>, "")}
+NopSeq == <<Nop("", <<>>, ""), Nop("  ", <<>>, " /* c */"), Nop("", <<Tk("id", "pragma", FALSE), Tk("id", "q", TRUE)>>, ""),
+            Nop("", <<Tk("id", "line", FALSE), Tk("num", "7", TRUE)>>, "")>>
+(* a unit that is well formed in both modes: object- and function-like macros, an invocation that spans two   *)
+(* lines, a function-like name that ends a line without being invoked, #undef / re-#define in the middle.      *)
+(* One or two such directives are inserted at every line boundary (a boundary inside the invocation makes the  *)
+(* program undefined by 6.10.3p11: generated, not judged).                                                     *)
+NopUnit ==
+  <<Def("ADD", TRUE, <<"a", "b">>, <<"(", "(", "a", ")", "+", "(", "b", ")", ")">>),
+    Def("K", FALSE, <<>>, <<"3">>)>>
+  \o Text(<<"int", "ADD", ";", "NL", "int", "f", "~(", "int", "v", "~)", "{", "NL",
+            "int", "r", "=", "ADD", "~(", "v", "~,", "NL", "K", "~)", "~;", "NL", "r", "=", "r", "+", "ADD", "NL", ";">>)
+  \o <<Undef("K"), Def("K", FALSE, <<>>, <<"5">>)>>
+  \o Text(<<"return", "ADD", "~(", "r", "~,", "K", "~)", "~;", "}">>)
+InsAt(P, p, d) == SubSeq(P, 1, p) \o <<d>> \o SubSeq(P, p + 1, Len(P))
+NopProgs(pairset, singleset) ==
+  LET U == NopUnit
+      n == Len(U) IN
+  {InsAt(U, p, d) : p \in 0..n, d \in singleset}
+  \cup UNION {{InsAt(InsAt(U, p2, d2), p1, d1) : p1 \in 0..p2, d1 \in pairset, d2 \in pairset} : p2 \in 0..n}   \* d1 before d2, also adjacent
+
 ProgSpace ==
   CASE Space = "t0" ->   \* smoke test
        {<<a, b>> \o Text(<<"A">> \o s) :
@@ -840,6 +895,8 @@ ProgSpace ==
           u \in {<<"H">>, <<"H", "H">>, <<"XSTR", "~(", "~H", "~)">>, <<"STR", "~(", "~H", "~)">>, <<"F", "~(", "~H", "~)">>,
                   <<"F", "~(", "~XSTR", "~(", "~H", "~)", "~)">>, <<"G", "~(", "~H", "~)">>, <<"F", "~(", "~H", "~)", "~H">>,
                   <<"XSTR", "~(", "~F", "~(", "~H", "~)", "~)", "NL", "r", "H", "~(", "~1", "~)">>}}
+    [] Space = "qn" -> NopProgs(NopQuick, NopAll)
+    [] Space = "qnx" -> NopProgs(NopMid, NopAll)
     [] Space = "redef2" -> \* define -> USE -> redefine: ctxpush overwrites the space flag of the first replacement token with the
                            \* spacing of the invocation, and white space in front of the replacement list is not part of it
                            \* (6.10.3p2/p7): the first token never takes part in the comparison; interior white space does
@@ -871,7 +928,7 @@ ProgSpace ==
 
 InitOf(P, md) ==
   /\ prog = P /\ mode = md /\ inp = InpOf(P, 1) /\ inpd = InpdOf(P, 1) /\ gen = 0
-  /\ mem = Mem0(MacroNamesOf(P)) /\ stack = <<Act("next", "fetch")>> /\ ret = FALSE /\ out = <<>> /\ status = "run"
+  /\ mem = [Mem0(MacroNamesOf(P)) EXCEPT !.ppnl = (md = "E")] /\ stack = <<Act("next", "fetch")>> /\ ret = FALSE /\ out = <<>> /\ status = "run"
   /\ acts = {}
 
 (* ------------------------------------------------------------------------ *)
@@ -1003,6 +1060,7 @@ GenItem(md, P, names, r, r2, id) ==
   ELSE IF r <= 72 THEN <<Undef(PickFrom(names, r2))>>
   ELSE IF r <= 88 THEN <<IF md = "E" THEN GenDefE(names, PickFrom(names, r2), R(100), R(5) - 1, R(100), R(7) - 1)
                          ELSE GenDefC(P, names, PickFrom(names, r2), R(100), R(3), R(100))>>
+  ELSE IF r <= 93 THEN <<PickFrom(NopSeq, r2)>>
   ELSE LET df == CurDef(P, PickFrom(names, r2)) IN IF df.k = "def" THEN <<Variant(df, R(100))>> ELSE <<>>
 
 GenStart(md, n, k) ==
@@ -1016,7 +1074,7 @@ GenStep ==
      /\ prog' = prog \o GenItem(mode, prog, NamesIn(prog), R(100), R(1000), gen)
      /\ gen' = gen - 1 /\ UNCHANGED <<mode, inp, inpd, mem, stack, ret, out, status>>
   \/ /\ status = "gen1" /\ gen = 0
-     /\ inp' = InpOf(prog, 1) /\ inpd' = InpdOf(prog, 1) /\ mem' = Mem0(MacroNamesOf(prog))
+     /\ inp' = InpOf(prog, 1) /\ inpd' = InpdOf(prog, 1) /\ mem' = [Mem0(MacroNamesOf(prog)) EXCEPT !.ppnl = (mode = "E")]
      /\ stack' = <<Act("next", "fetch")>> /\ status' = "run" /\ UNCHANGED <<prog, mode, ret, out, gen>>
 
 Init == IF Space = "sim"
@@ -1054,11 +1112,14 @@ Prop_Disc ==
      /\ (mem'.ndir # mem.ndir /\ mem.ndir # 0 => mem'.md = 0)]_vars
 
 ModelOutcome ==
-  LET idx == SelectSeq([i \in 1..Len(out) |-> i], LAMBDA i : out[i].k # "nl")
+  LET idx == SelectSeq([i \in 1..Len(out) |-> i], LAMBDA i : out[i].k # "nl" \/ mode = "C")   \* a new-line that reaches the parser is a token
   IN [st |-> status, out |-> IF status = "ok" THEN [j \in 1..Len(idx) |-> [k |-> out[idx[j]].k, s |-> out[idx[j]].s]] ELSE <<>>]
 
 RECURSIVE SetToSeq(_)
 SetToSeq(S) == IF S = {} THEN <<>> ELSE LET e == CHOOSE e \in S : TRUE IN <<e>> \o SetToSeq(S \ {e})
+
+(* compile mode: next() never hands a new-line token to the parser (ppflags has PPNEWLINE only inside a directive) *)
+Inv_Newline == mode = "C" => (~mem.ppnl \/ status # "run") /\ \A i \in 1..Len(out) : out[i].k # "nl"
 
 (* the printed text re-scans to the delivered tokens (mode E; the tokens of `out` carry their space flags) *)
 TextOK == Lex(TextOf(out)) = SpellingsOf(out)
